@@ -63,6 +63,9 @@ pub struct PfPlan {
     /// after the sequential part two threads dump and reload different parameters in their own directories at the same time
     #[serde(default)]
     pub concurrent: bool,
+    /// the dump directory has a name that is not valid UTF-8
+    #[serde(default)]
+    pub latin1_dir: bool,
 }
 
 static DIRSEQ: AtomicU64 = AtomicU64::new(0);
@@ -90,6 +93,16 @@ impl Scratch {
         let p = scratch_root().join(format!("pf-{}-{}-{}", tag, std::process::id(), n));
         std::fs::create_dir_all(&p).expect("harness: cannot create scratch directory");
         Scratch(p)
+    }
+    /// a directory whose name is not valid UTF-8 (legal on Unix: a Latin-1 name); None if the file system refuses it
+    fn new_latin1(tag: &str) -> Option<Scratch> {
+        use std::os::unix::ffi::OsStrExt;
+        let n = DIRSEQ.fetch_add(1, Ordering::Relaxed);
+        let mut name = format!("pf-{}-{}-{}-donn", tag, std::process::id(), n).into_bytes();
+        name.extend_from_slice(b"\xe9es");
+        let p = scratch_root().join(std::ffi::OsStr::from_bytes(&name));
+        std::fs::create_dir_all(&p).ok()?;
+        Some(Scratch(p))
     }
     fn file(&self) -> PathBuf {
         self.0.join("parameters.json")
@@ -151,6 +164,15 @@ fn gen_params(rng: &mut Rng) -> PfParams {
         let bf = (1.0f32 + (rng.below(1 << 23) as f32 + 1.0) / (1u32 << 23) as f32) as f64;
         let af = f32::from_bits(rng.range(0x3000_0000, 0x4f00_0000) as u32) as f64;
         (bf, format!("{:e}", bf), af, format!("{:e}", af), false)
+    } else {
+        (b, bt, a, at, short)
+    };
+    // values that make no sense for a sketch but are parameter values all the same (`new` accepts any tuple):
+    // a base at or below 1, above 2, zero, negative, at both ends of the exponent range; a zero or negative rate
+    let (b, bt, a, at, short) = if rng.chance(0.06) {
+        let bs = *rng.pick(&["1", "0.5", "0.999999999", "1.000000000001", "2.5", "3.75", "1e300", "5e-324", "-1.5", "0", "1e-9", "17"]);
+        let (a2, at2) = if rng.chance(0.3) { (*rng.pick(&[0.0f64, -20.0, -1e-3]), String::from("degenerate")) } else { (a, at) };
+        (bs.parse::<f64>().unwrap(), bs.to_string(), a2, at2, short)
     } else {
         (b, bt, a, at, short)
     };
@@ -280,10 +302,17 @@ impl Scenario for ParamFile {
         let coarse_mtime = rng.chance(0.4);
         let second_dir = rng.chance(0.25);
         let concurrent = rng.chance(0.04);
-        PfPlan { dumps, faults: IoFaults::default(), crash_offsets: None, enospc_at: None, coarse_mtime, second_dir, concurrent }
+        let latin1_dir = rng.chance(0.1);
+        PfPlan { dumps, faults: IoFaults::default(), crash_offsets: None, enospc_at: None, coarse_mtime, second_dir, concurrent, latin1_dir }
     }
     fn execute(&self, plan: &PfPlan, ctx: &mut Ctx) -> Result<(), Violation> {
-        let dir = Scratch::new("in");
+        let dir = match if plan.latin1_dir { Scratch::new_latin1("in") } else { None } {
+            Some(d) => {
+                ctx.count("fault:directory-name-not-utf8");
+                d
+            }
+            None => Scratch::new("in"),
+        };
         let dir2 = Scratch::new("in2");
         // missing file first, then a directory that does not exist at all
         ctx.ev("reload-missing", 0);
@@ -478,6 +507,11 @@ fn shrink_pf(plan: &PfPlan) -> Vec<PfPlan> {
         p.concurrent = false;
         out.push(p);
     }
+    if plan.latin1_dir {
+        let mut p = plan.clone();
+        p.latin1_dir = false;
+        out.push(p);
+    }
     // simpler parameter values
     for (i, d) in plan.dumps.iter().enumerate() {
         let simple = PfParams { b_bits: 1.5f64.to_bits(), m: 4, a_bits: 20f64.to_bits(), q: 30, short_decimal: true, b_text: "1.5".into(), a_text: "20".into() };
@@ -622,7 +656,7 @@ impl Scenario for ParamFileShim {
             eintr_read: if rng.chance(0.5) { Some(rng.range(1, 4) as u32) } else { None },
         };
         let enospc_at = if rng.chance(0.5) { Some(rng.range(0, 60) as u32) } else { None };
-        PfPlan { dumps, faults, crash_offsets: None, enospc_at, coarse_mtime: false, second_dir: false, concurrent: false }
+        PfPlan { dumps, faults, crash_offsets: None, enospc_at, coarse_mtime: false, second_dir: false, concurrent: false, latin1_dir: false }
     }
     fn execute(&self, plan: &PfPlan, ctx: &mut Ctx) -> Result<(), Violation> {
         let dir = Scratch::new("sh");
